@@ -69,9 +69,11 @@ def main():
     tier = args.tier if args.tier in ("quick", "thorough") else "quick"
     prop = args.prop.upper()
 
-    from vlib import harness
-
     import logging
+    import warnings
+
+    warnings.simplefilter("ignore")
+    from vlib import harness
 
     try:
         import pydrex  # noqa: F401
